@@ -182,8 +182,10 @@ def match_stmts(ctx, rule, construct, body, specs, names=None, mod=None, node=No
             allowed |= _PARTNER.get(t, set())
     OPS = ("Not", "USub", "Add", "Sub", "Mult", "Div", "FloorDiv", "Lt", "LtE", "Gt", "GtE", "Eq", "NotEq")      # arithmetic / comparison changes are changes of meaning
 
+    bound = {x.id for g in got for x in ast.walk(g) if isinstance(x, ast.Name) and isinstance(x.ctx, ast.Store)}       # locals may carry any name
+
     def new_vocab(g):
-        return {t for t in vocab(g) - allowed if not _is_number(t) and t not in OPS}
+        return {t for t in vocab(g) - allowed - bound if not _is_number(t) and t not in OPS}
     extra = set()
     for g in got:
         extra |= new_vocab(g)
